@@ -48,12 +48,12 @@ def first_principles(s, sym):
     """local matrix written out in NumPy, or None when the symbol is left to a fresh op_mat"""
     if s[0] == "spin":
         m = {"sigma_x": [[0, 1], [1, 0]], "sigma_z": [[1, 0], [0, -1]], "sigma_+": [[0, 1], [0, 0]], "sigma_-": [[0, 0], [1, 0]],
-             "iY": [[0, 1], [-1, 0]], "X": [[0, 1], [1, 0]], "Z": [[1, 0], [0, -1]], "+": [[0, 1], [0, 0]], "-": [[0, 0], [1, 0]]}
+             "sigma_y": [[0, -1j], [1j, 0]], "iY": [[0, 1], [-1, 0]], "X": [[0, 1], [1, 0]], "Z": [[1, 0], [0, -1]], "+": [[0, 1], [0, 0]], "-": [[0, 0], [1, 0]]}
         out = np.eye(2)
         for t in sym.split(" "):
             if t not in m:
                 return None
-            out = out @ np.array(m[t], dtype=float)
+            out = out @ np.array(m[t])
         return out
     if s[0] == "sho":
         n, w, x0 = s[2], s[3], s[4]
@@ -259,8 +259,34 @@ def run_alphabet(case):
     return {"id": case["id"], "fails": fails, "n": 1, "worst": err, "distinct_words": nprim}
 
 
+def run_complex(case):
+    """term lists with COMPLEX local factors (sigma_y, p) on several trees / groupings of the same basis sets.  Verdict per
+    tree: either the construction is refused with an exception, or its dense operator equals the kron reference (which may
+    be complex) -- never a silently different operator; so all accepted trees agree with each other."""
+    fails = []
+    verdicts = []
+    ref = None
+    for it, (tree, algo) in enumerate(zip(case["trees"], case["algos"])):
+        step = {"basis": case["basis"], "tree": tree, "algo": algo, "terms": case["terms"]}
+        if ref is None:
+            ref = reference(step)
+        try:
+            bl, ttno, _ = build(step, with_mpo=False)
+            d = np.asarray(ttno.todense(bl))
+        except Exception as e:
+            verdicts.append("refused: %s" % type(e).__name__)
+            continue
+        err = relerr(d, ref)
+        verdicts.append("accepted, err %.2e" % err)
+        if not err <= 1e-9:
+            fails.append({"what": "a term list with complex local factors was accepted but the TTNO differs from the dense sum of krons",
+                          "tree": tree, "algo": algo, "err": err, "verdicts": list(verdicts)})
+    return {"id": case["id"], "fails": fails, "n": len(case["trees"]), "worst": 0.0, "verdicts": verdicts}
+
+
 def run_payload(payload):
-    return {"alphabets": [run_alphabet(c) for c in payload.get("alphabets", [])],
+    return {"complexes": [run_complex(c) for c in payload.get("complexes", [])],
+            "alphabets": [run_alphabet(c) for c in payload.get("alphabets", [])],
             "sequences": [run_sequence(s) for s in payload.get("sequences", [])],
             "scales": [run_scale(c) for c in payload.get("scales", [])]}
 
